@@ -16,6 +16,7 @@ package pipe
 
 import (
 	"context"
+	"github.com/logrange/logrange/pkg/lql"
 	"github.com/logrange/logrange/pkg/model"
 	"github.com/logrange/logrange/pkg/model/field"
 	"github.com/logrange/logrange/pkg/model/tag"
@@ -32,6 +33,8 @@ type (
 		w       bytes.Writer
 		rfld    field.Fields
 		ready   bool
+		// fltF is the pipe's filter: events it rejects are skipped
+		fltF lql.WhereExpFunc
 	}
 )
 
@@ -48,6 +51,11 @@ func (si *siterator) Next(ctx context.Context) {
 // Get returns current LogEvent, the TagsCond for the event or an error if any. It returns io.EOF when end of the collection is reached
 func (si *siterator) Get(ctx context.Context) (model.LogEvent, tag.Line, error) {
 	le, ln, err := si.it.Get(ctx)
+	for err == nil && si.fltF != nil && !si.fltF(&le) {
+		// the pipe's filter rejects the event: step over it
+		si.it.Next(ctx)
+		le, ln, err = si.it.Get(ctx)
+	}
 	if err != nil {
 		return le, ln, err
 	}
